@@ -6,3 +6,5 @@ open Comrak.C17
 #print axioms renderCm_final_newline
 #print axioms canonical_spellings
 #print axioms cm_end_list_after_empty_item_counterexample
+#print axioms cm_fixed_point_canon_partial
+#print axioms cm_idempotent_canon_partial
